@@ -19,7 +19,9 @@ CLAIMS = {
         text='Proof: every function between the wire topology and the J/E lines of the current table is under contract '
              '(Connected_Geobj.add, Geobj._add_conn, Connected_Geobj._iter/pulse_iter, Geobj.pulse_iter/pulse_idx_iter, '
              'Mininec.currents_as_mininec) and the KCL lemma is proved from those contracts for any number of wire ends; '
-             'unbounded in wires, pulses and iterations. One recorded finding (C09-a) restricts one obligation to <= 1 junction pulse on a first end.',
+             'unbounded in wires, pulses and iterations; in addition the real currents_as_mininec, iterators inlined, is executed on three '
+             'concrete small topologies with symbolic currents and the property read off the printed blocks (holds for any way of writing '
+             'its loops; shape-bounded). One recorded finding (C09-a) restricts one obligation to <= 1 junction pulse on a first end.',
         note='floats as reals; sorted() permutation axiom; format_float as "one token per value" (its digits are C19); '
              'end_segs -> junction pulse link from the compute_connections contract (C12 units); native sweep is a bounded stand-in only',
         design_ref='DESIGN.md §5 C09'),
